@@ -239,6 +239,32 @@ def gen_code(model):
                     L += lines_equal(prefix, a + "._d[j]", b + "._d[j]", model[e], e, what, indent + "  ")
                     L.append(indent + "}")
             return L
+        # boolean: all persistent members equal (flags compared under a mask)
+        def lines_eqp(lhs, rhs, fs_, indent="  "):
+            L = []
+            for kind, arg, name, sess in fs_:
+                if sess:
+                    continue
+                a, b = "%s.%s" % (lhs, name), "%s.%s" % (rhs, name)
+                if kind == "SC" and name == "_flags":
+                    L.append(indent + "if ((%s & flagmask) != (%s & flagmask)) return false;" % (a, b))
+                elif kind in ("SC", "IX"):
+                    L.append(indent + "if (%s != %s) return false;" % (a, b))
+                elif kind == "ST":
+                    L.append(indent + "if (!(%s == %s)) return false;" % (a, b))
+                elif kind in ("IV", "SV"):
+                    el = "int" if kind == "IV" else "std::string"
+                    L.append(indent + "if (%s._n != %s._n) return false;" % (a, b))
+                    L.append(indent + "for (size_t i = 0; i < std::vector<%s>::CAP; i++) if (i < %s._n && !(%s._d[i] == %s._d[i])) return false;" % (el, b, a, b))
+                elif kind == "CV":
+                    e = outer + "_" + arg
+                    L.append(indent + "if (%s._n != %s._n) return false;" % (a, b))
+                    L.append(indent + "for (size_t j = 0; j < std::vector<%s::%s>::CAP; j++) if (j < %s._n && !eqp_%s(%s._d[j], %s._d[j], -1)) return false;" % (outer, arg, b, e, a, b))
+            return L
+        o.append("static bool eqp_%s(const %s &a, const %s &b, int flagmask) {" % (ident, c, c))
+        o += lines_eqp("a", "b", fs)
+        o.append("  return true;")
+        o.append("}")
         o.append("#define CHECK_EQUAL_%s(PREFIX, WHAT, a, b) do { \\" % ident)
         for l in lines_equal("@P@", "(a)", "(b)", fs, c, "@W@"):
             o.append(l.replace('"@P@ ', 'PREFIX " ').replace(': @W@"', ': " WHAT') + " \\")
